@@ -32,7 +32,7 @@ void ensure_files() {
   g_tmpdir = d + sub;
   mkdir(g_tmpdir.c_str(), 0755);
   FILE *f = fopen((g_tmpdir + "/a.ini").c_str(), "w");
-  fputs("[s1]\na=1\nb = two\nl={x y z}\n[s2]\nc=3.5\n", f);
+  fputs("; leading comment\n\n[s1]\na=1\n# a comment line\nb = two ; trailing\n   \nl={x y z}\n[s2]\n;another\nc=3.5\nnot a parameter line\n", f);
   fclose(f);
   mkdir((g_tmpdir + "/dir").c_str(), 0755);
   for (const char *nm : {"/dir/f1", "/dir/f2"}) { FILE *g = fopen((g_tmpdir + nm).c_str(), "w"); fputs("x", g); fclose(g); }
@@ -122,7 +122,7 @@ void create_one() {
   case O_BUF: { static const psize sz[] = {8, 64, 200, 5000}; add(t, p_shm_buffer_new(gen(2) ? "vp-neutral-buf" : "vp-neutral-buf2", sz[gen(4)], &e)); break; }
   case O_THREAD: {
     bool joinable = gen(3) != 0;
-    PUThread *th = p_uthread_create(thread_body, (ppointer)(intptr_t)gen(32), joinable, gen(2) ? "worker" : nullptr);
+    PUThread *th = p_uthread_create(thread_body, (ppointer)(intptr_t)gen(32), joinable, gen(2) ? (gen(3) == 0 ? "a-worker-with-a-name-longer-than-the-system-allows" : "worker") : nullptr);
     if (th) { S->threads_started++; add(t, th, joinable); }
     break;
   }
